@@ -109,10 +109,15 @@ Definition no_overflow_b (rs : list result) : bool :=
   (ref_ltotal rs <? two64 / 2).
 
 Definition check_report : rd verdict :=
-  ops <- getlist getop ;; o <- getobs ;;
+  ops <- getlist getop ;; o <- getobs ;; tcodes <- getlist (getpair getz getz) ;;
   let rs := adds ops in
   let vprop := if no_overflow_b rs
-               then compare (fun c b d => prop_ok c b d) (expected_of_ref rs) o else VOk in
+               then combine_verdicts
+                      [ compare (fun c b d => prop_ok c b d) (expected_of_ref rs) o;
+                        (* the text report lists every status code once, ascending, with the same counts *)
+                        prop_ok 17 (list_eqb (map fst tcodes) (map fst (o_codes o)) && list_eqb (map snd tcodes) (map snd (o_codes o)))
+                                [Z.of_nat (length tcodes); Z.of_nat (length (o_codes o))] ]
+               else VOk in
   let vdiff := compare (fun c b d => if b then VOk else VDiff c d)
                        (expected_of_model (close (run ops init))) o in
   ret (combine_verdicts [vprop; vdiff]).
